@@ -1,6 +1,7 @@
 package closest
 
 import (
+	"github.com/virus-evolution/gofasta/pkg/verifhook"
 	"errors"
 	"fmt"
 	"io"
@@ -99,6 +100,7 @@ func findClosestN(query fastaio.EncodedFastaRecord, catchmentSize int, maxdist f
 		rearrangeCatchment(&neighbours, len(neighbours.catchment))
 	}
 
+	verifhook.Jitter("closest.findClosestN", neighbours.qidx)
 	cOut <- neighbours
 }
 
